@@ -734,6 +734,23 @@ def r03_9(ctx: Ctx):
         if f is None or node is None or not node.args:
             continue
         n += 1
+        # an object created on the same path (the new item before it is inserted) has no neighbours yet, whatever
+        # the allocation-site abstraction merges it with
+        try:
+            paths = C.normal_paths(ctx.explorer().explore(f))
+        except AnalysisError:
+            paths = []
+        fresh_only = bool(paths)
+        for p in paths:
+            for ev in p.events:
+                if ev.kind == 'call' and ev.node is node:
+                    a0 = ev.d['args'][0] if ev.d['args'] else None
+                    at = a0.single_atom() if isinstance(a0, RF) else None
+                    if not (isinstance(at, tuple) and at and at[0] == 'fresh'):
+                        fresh_only = False
+        if fresh_only:
+            ctx.ok(rid, f.short, f'{ast.unparse(node)[:50]}: copies an object created on the same path', f.loc(node))
+            continue
         roots = pta.expr_pts(f, node.args[0])
         linked = []
         for o in pta.reach_objs(roots, max_n=20000):
